@@ -13,7 +13,9 @@ EXPLANATION = (
     'ciphertext; R06.4 the single-shot opening functions pass ciphertext, aad and tag through unmodified; R06.5 the '
     'AEAD verdict is never dropped (Ok is control-dependent on the AEAD returning Ok); R06.6 (cross-message substitution) '
     'the nonce handed to the AEAD on both sides is helper(&base_nonce,&seq) and the helper is base XOR an injective '
-    'big-endian encoding of the counter (bit-provenance), so no two positions of one context share a nonce. Not decided: that the AEAD '
+    'big-endian encoding of the counter (bit-provenance), so no two positions of one context share a nonce; R06.7 the tag '
+    'type deserialises from exactly Nt bytes (length guard first, whole copy), so a lengthened or shortened detached tag is '
+    'refused before the AEAD. Not decided: that the AEAD '
     'rejects modified input (AEAD security; trusted base).')
 TRUSTED = ['rustc MIR construction', 'aead::AeadInPlace implementations verify the tag over (nonce, aad, ciphertext)',
            'slice::split_at / to_vec / copy_from_slice semantics']
@@ -77,5 +79,14 @@ def run(ctx):
     rep.floor('R06.4', 'single-shot opening functions', len(ss), 2 if alloc else 1)
     for a, setups in ss:
         c14.check_single_shot(rep, facts, a, setups, rule='R06.4', integrity_only=True)
+    # R06.7: with the detached interfaces the tag reaches the AEAD as an AeadTag the caller deserialised: appended or removed
+    # bytes must already be refused there — AeadTag::from_bytes accepts exactly Nt bytes and wraps exactly those
+    from . import c12
+    from .common import impl_bodies
+    tfb = [b for b in impl_bodies(facts, 'Deserializable', 'from_bytes') if not b.default_of and (b.impl_of or {}).get('self_ty', '').startswith('aead::AeadTag<')]
+    if rep.floor('R06.7', 'AeadTag::from_bytes', len(tfb), 1):
+        for b in tfb:
+            c12.check_from_bytes(rep, facts, b, rule='R06.7')
+        c12.check_value_flow(rep, facts, tfb, [], rule='R06.7')
     rep.bodies_analysed = len(facts.body_list)
     rep.call_sites = sum(len(get_an(facts, b.key).calls()) for b in facts.body_list)
